@@ -698,6 +698,11 @@ static int32 tls13WriteServerHello(ssl_t *ssl, sslBuf_t *out,
         return rc;
     }
     extData = psDynBufDetachPsSize(&extBuf, &extDataLen);
+    if (extData == NULL)
+    {
+        psDynBufUninit(&shBuf);
+        return PS_MEM_FAIL;
+    }
 
     /* Extension extensions<6..2^16-1> */
     psDynBufAppendTlsVector(&shBuf,
@@ -711,6 +716,10 @@ static int32 tls13WriteServerHello(ssl_t *ssl, sslBuf_t *out,
 
     psDynBufUninit(&extBuf);
     psDynBufUninit(&shBuf);
+    if (shData == NULL)
+    {
+        return PS_MEM_FAIL;
+    }
 
     /* Wrap into Handshake and TLSPlaintext. */
     rc = makeHsRecord(ssl,
@@ -815,6 +824,10 @@ static int32_t tls13WriteEncryptedExtensions(ssl_t *ssl, sslBuf_t *out)
     }
 
     extensionData = psDynBufDetachPsSize(&eeBuf, &extensionDataLen);
+    if (extensionData == NULL)
+    {
+        return PS_MEM_FAIL;
+    }
     psDynBufInit(ssl->hsPool, &eeBuf, ENCRYPTED_EXTENSIONS_SIZE_EST);
     /* Extension extensions<0..2^16-1>; */
     psDynBufAppendTlsVector(&eeBuf,
@@ -823,6 +836,10 @@ static int32_t tls13WriteEncryptedExtensions(ssl_t *ssl, sslBuf_t *out)
             extensionDataLen);
     psFree(extensionData, ssl->hsPool);
     eeData = psDynBufDetachPsSize(&eeBuf, &eeLen);
+    if (eeData == NULL)
+    {
+        return PS_MEM_FAIL;
+    }
 
     /* Wrap into Handshake, TLSPlaintext, TLSInnerPlaintext and
        TLSCiphertext. But don't encrypt yet. */
@@ -1071,12 +1088,17 @@ static int32 tls13WriteCertificate(ssl_t *ssl, sslBuf_t *out)
                     &extBuf);
             if (rc < 0)
             {
+                psDynBufUninit(&extBuf);
+                psDynBufUninit(&certListBuf);
+                psDynBufUninit(&certBuf);
                 return rc;
             }
 
             extData = psDynBufDetach(&extBuf, &extDataLen);
             if (extData == NULL)
             {
+                psDynBufUninit(&certListBuf);
+                psDynBufUninit(&certBuf);
                 ssl->err = SSL_ALERT_INTERNAL_ERROR;
                 return MATRIXSSL_ERROR;
             }
@@ -1099,6 +1121,7 @@ static int32 tls13WriteCertificate(ssl_t *ssl, sslBuf_t *out)
     certList = psDynBufDetachPsSize(&certListBuf, &certListLen);
     if (certList == NULL)
     {
+        psDynBufUninit(&certBuf);
         ssl->err = SSL_ALERT_INTERNAL_ERROR;
         return PS_MEM_FAIL;
     }
@@ -1162,6 +1185,7 @@ static int32 tls13WriteCertificateVerify(ssl_t *ssl, sslBuf_t *out)
     {
         psTraceErrr("Failed to negotiate CertificateVerify sig alg\n");
         ssl->err = SSL_ALERT_HANDSHAKE_FAILURE;
+        psDynBufUninit(&cvBuf);
         return SSL_SEND_RESPONSE;
     }
     psTracePrintTls13SigAlg(INDENT_HS_MSG,
@@ -1179,6 +1203,7 @@ static int32 tls13WriteCertificateVerify(ssl_t *ssl, sslBuf_t *out)
         rc = tls13TranscriptHashSnapshot(ssl, trHash);
         if (rc < 0)
         {
+            psDynBufUninit(&cvBuf);
             return rc;
         }
 
@@ -1208,6 +1233,7 @@ static int32 tls13WriteCertificateVerify(ssl_t *ssl, sslBuf_t *out)
                 &ssl->sec.tls13CvSigLen);
         if (rc < 0)
         {
+            psDynBufUninit(&cvBuf);
             return rc;
         }
 
@@ -1252,7 +1278,10 @@ static int32 tls13WriteCertificateVerify(ssl_t *ssl, sslBuf_t *out)
             if (rc < 0)
             {
                 psFree(ssl->sec.tls13CvSig, ssl->hsPool);
+                ssl->sec.tls13CvSig = NULL;
+                ssl->sec.tls13CvSigLen = 0;
                 psFree(ssl->hsPool, tbs);
+                psDynBufUninit(&cvBuf);
                 psTraceErrr("Could not verify own sig!!\n");
                 return rc;
             }
@@ -1271,6 +1300,7 @@ static int32 tls13WriteCertificateVerify(ssl_t *ssl, sslBuf_t *out)
     cvData = psDynBufDetachPsSize(&cvBuf, &cvDataLen);
     if (cvData == NULL)
     {
+        psDynBufUninit(&cvBuf);
         return PS_MEM_FAIL;
     }
 
@@ -1458,6 +1488,7 @@ int32_t tls13WriteNewSessionTicket(ssl_t *ssl, sslBuf_t *out)
             &ticketLen);
     if (rc < 0)
     {
+        psDynBufUninit(&nstBuf);
         goto out_internal_error;
     }
 
@@ -1482,9 +1513,16 @@ int32_t tls13WriteNewSessionTicket(ssl_t *ssl, sslBuf_t *out)
         rc = tls13WriteEarlyData(ssl, &extBuf, ssl->tls13SessionMaxEarlyData);
         if (rc < 0)
         {
+            psDynBufUninit(&extBuf);
+            psDynBufUninit(&nstBuf);
             return rc;
         }
         extData = psDynBufDetachPsSize(&extBuf, &extDataLen);
+        if (extData == NULL)
+        {
+            psDynBufUninit(&nstBuf);
+            goto out_internal_error;
+        }
     }
     psDynBufAppendTlsVector(&nstBuf,
             0, (1 << 16) - 1,
@@ -1550,6 +1588,8 @@ static inline
 void tls13ClearHsTemporaryState(ssl_t *ssl)
 {
     psFree(ssl->sec.tls13CvSig, ssl->hsPool);
+    ssl->sec.tls13CvSig = NULL;
+    ssl->sec.tls13CvSigLen = 0;
     Memset(&ssl->sec.tls13KsState, 0, sizeof(ssl->sec.tls13KsState));
 }
 
@@ -2473,6 +2513,8 @@ int32 tls13WriteClientHello(ssl_t *ssl, sslBuf_t *out,
             if (ssl->tls13ClientCipherSuites == NULL)
             {
                 psTraceErrr("Out of mem in tls13WriteClientHello\n");
+                psDynBufUninit(&ciphersBuf);
+                psDynBufUninit(&chBuf);
                 goto out_internal_error;
             }
             for (i = 0; i < cipherSpecsLen; i++)
@@ -2492,6 +2534,11 @@ int32 tls13WriteClientHello(ssl_t *ssl, sslBuf_t *out,
                 ssl->tls13ClientCipherSuitesLen,
                 PS_FALSE);
         data = psDynBufDetachPsSize(&ciphersBuf, &dataLen);
+        if (data == NULL)
+        {
+            psDynBufUninit(&chBuf);
+            return PS_MEM_FAIL;
+        }
         /* CipherSuite cipher_suites<2..2^16-2>; */
         psDynBufAppendTlsVector(&chBuf,
                 2, (1 << 16) - 2,
@@ -2529,6 +2576,11 @@ int32 tls13WriteClientHello(ssl_t *ssl, sslBuf_t *out,
         return rc;
     }
     data = psDynBufDetachPsSize(&extBuf, &dataLen);
+    if (data == NULL)
+    {
+        psDynBufUninit(&chBuf);
+        return PS_MEM_FAIL;
+    }
     /* Extension extensions<6..2^16-1> */
     psDynBufAppendTlsVector(&chBuf,
             6, (1 << 16) - 1,
@@ -2538,6 +2590,10 @@ int32 tls13WriteClientHello(ssl_t *ssl, sslBuf_t *out,
 
     /* Now have the full ClientHello in chBuf. */
     data = psDynBufDetachPsSize(&chBuf, &dataLen);
+    if (data == NULL)
+    {
+        return PS_MEM_FAIL;
+    }
 
     messageSize = ssl->recordHeadLen + ssl->hshakeHeadLen + dataLen;
     if (messageSize > SSL_MAX_BUF_SIZE)
